@@ -1981,3 +1981,128 @@ def r17(cx):
 RS.explanation += (' Added in wave 3: `..` is resolved against the simulated directory tree - no lexically shortened pathname reaches '
                    'FileSystem::get/save and chdir normalises only after resolving (R16, shared as C05.R6); SIGCONT resumes a stopped '
                    'process on every path through raise_signal/deliver_signal, whatever the disposition and mask (R17).')
+
+
+# ---------------------------------------------------------------------------------------
+# added after the independent reports C05w3 / C19w3 (fix 1d5a00f: the simulated opendir leaked a descriptor per call)
+@RS.rule('C19.R18', 'K-RES', 'a directory stream gives its descriptor back: on a real system closedir (Drop of the real Dir) closes it; the '
+         'simulated stream type keeps no descriptor and has no destructor, so the simulated fdopendir/opendir must close the descriptor '
+         'on every successful exit - otherwise every directory scan of pathname expansion costs one descriptor for good (EMFILE under ulimit -n)')
+def r18(cx):
+    F = cx.F
+    VD = 'yash_env::system::r#virtual::file_system::VirtualDir'
+    cx.require(VD in F.adts, 'VirtualDir not found')
+    holds_fd = any('io::Fd' in str(f.get('ty')) for v in F.adts[VD]['variants'] for f in v['fields'])
+    has_drop = any(i.get('self_adt') == VD and str(i.get('trait') or '').endswith('ops::drop::Drop') for i in F.impls)
+    fd_fn = [k for k in F.bodies if k.endswith(' as yash_env::system::file_system::Open>::fdopendir') and 'VirtualSystem' in k]
+    op_fn = [k for k in F.bodies if k.endswith(' as yash_env::system::file_system::Open>::opendir') and 'VirtualSystem' in k]
+    cx.require(len(fd_fn) == 1 and len(op_fn) == 1, 'impl Open for VirtualSystem: opendir / fdopendir not found')
+    fb, ob = F.bodies[fd_fn[0]], F.bodies[op_fn[0]]
+    cx.fn(fb.fn)
+    cx.fn(ob.fn)
+    cx.site('VirtualDir keeps a descriptor: %s; has a destructor: %s' % (holds_fd, has_drop))
+    if holds_fd and has_drop:
+        return                       # RAII, as on the real side: the destructor is the release (C19.R1 compares the impl sets)
+    CLOSE = [re.compile(r'process::Process::close_fd$'), re.compile(r'::Close>?::close$')]
+    for body, name in ((fb, 'fdopendir'), (ob, 'opendir')):
+        closes = {blk for blk, t in Q.find_calls(body, CLOSE)}
+        hands_over = {blk for blk, t in body.calls() if pp.callee(t).endswith('::fdopendir')} if body is ob else set()
+        errs = {blk for blk, t in body.calls() if Q.callee_is(t, [re.compile(r'FromResidual<.*>>::from_residual$')])}
+        errs |= {blk for blk, j, st in body.stmts() if st['k'] == 'assign' and st['rv']['k'] == 'agg'
+                 and str(st['rv'].get('adt', '')).endswith('result::Result') and st['rv'].get('variant') in (1, 'Err')}
+        p = body.shortest_path(0, set(body.return_blocks()), removed=closes | hands_over | errs)
+        cx.site('simulated %s: every successful exit closes the descriptor%s: %s' % (name, ' or hands it to fdopendir' if body is ob else '', p is None))
+        if p is not None:
+            cx.violation(body.fn, 'directory-descriptor-never-closed', 'the simulated %s can return a directory stream while the descriptor '
+                         'it was made from stays open, and nothing can close it later (VirtualDir keeps no descriptor and has no destructor): '
+                         'under `ulimit -n 8` the sixth `echo *` finds the table full, opendir fails with EMFILE and the pattern is left '
+                         'unexpanded - on a real system closedir gives the descriptor back' % name, loc=body.loc(body.term(p[-1])),
+                         path=Q.render_path(body, p))
+
+
+# added after the independent report C05w3 #1 (fix below: `file/..`, `file/.` resolved in the simulated file system)
+@RS.rule('C19.R19', 'K-PASS', 'ENOTDIR: in the simulated file system EVERY step of a path walk that goes through the current file - a name, and '
+         '`..` as well - is taken only after testing that the file is a directory (`.` and `..` are directory entries: `file/..` is '
+         'ENOTDIR on a real kernel, so `*/..` in pathname expansion lists directories only)')
+def r19(cx):
+    F = cx.F
+    cands = [b for k, b in F.bodies.items() if k.startswith('yash_env::system::r#virtual::file_system::FileSystem::get') and 'main' in k]
+    cx.require(cands, 'the path walk FileSystem::get::main was not found')
+    body = max(cands, key=lambda b: len(b.blocks))
+    cx.fn(body.fn)
+    du = Q.DefUse(body)
+    # the dispatch on the path component
+    disp = None
+    for u in sorted(body.live_blocks()):
+        ec = Q.edge_condition(F, body, du, u)
+        if ec and ec[0]['k'] == 'discr' and 'Component' in (ec[0].get('ty') or '') and 'Option' not in (ec[0].get('ty') or ''):
+            disp = (u, ec)
+            break
+    cx.require(disp is not None, 'FileSystem::get::main no longer dispatches on unix_path::Component')
+    u, (org, labels) = disp
+    dirtests = set()
+    for b in body.live_blocks():
+        ec = Q.edge_condition(F, body, du, b)
+        if ec and ec[0]['k'] == 'discr' and 'FileBody' in (ec[0].get('ty') or ''):
+            dirtests.add(b)
+    cx.require(dirtests, 'FileSystem::get::main no longer tests FileBody::Directory')
+    # a step = the stack of visited nodes changes (push of the child for a name, pop for `..`); variant names of the external enum
+    # unix_path::Component are not in the facts, so the arms are classified by what they do
+    steps = [(blk, t) for blk, t in body.calls() if re.search(r'alloc::vec::Vec::<T, A>::(push|pop|truncate)$', pp.callee(t))
+             and 'Inode' in ' '.join(str(x) for x in (t.get('at') or [])) and body.dominates(u, blk)]
+    n = 0
+    for blk, t in steps:
+        n += 1
+        kind = pp.callee(t).split('::')[-1]
+        p = body.shortest_path(u, {blk}, removed=dirtests)
+        cx.site('FileSystem::get: node stack %s at %s: the current file is tested to be a directory before the step: %s' % (kind, body.loc(t), p is None))
+        if p is not None:
+            v = 'ParentDir' if kind != 'push' else 'Normal'
+            cx.violation(body.root, 'step-without-directory-test:%s' % v, 'a %s component is followed without testing that the file it is '
+                         'looked up in is a directory: `file/..` and `file/../x` resolve for a regular file, fstatat/opendir succeed where '
+                         'a real kernel says ENOTDIR, and pathname expansion of `*/..` returns paths that do not exist'
+                         % ('`..`' if v == 'ParentDir' else 'name'), loc=body.loc(t), path=Q.render_path(body, p))
+    cx.floor(n, 2, 'stepping components (Normal, ParentDir)')
+
+
+RS.explanation += (' Added after the third seed wave and its reports: a directory stream gives its descriptor back (R18); every step of the '
+                   'simulated path walk, `..` included, is behind the directory test (R19).')
+
+
+# added after the independent report C19w3 #2/#3 (fix d681433)
+@RS.rule('C19.R6d', 'K-GUARD', 'two more POSIX error returns of pathname resolution: the EMPTY pathname is ENOENT (it never names the working '
+         'directory: `echo y < ""` is a redirection error), and open(O_CREAT) of a missing `name/` creates nothing (EISDIR on Linux): the '
+         'simulated kernel reaches its path lookup only behind the not-empty test and its file creation only behind the no-trailing-slash test')
+def r6d(cx):
+    F = cx.F
+    GET = [re.compile(r'file_system::FileSystem::get$')]
+    SAVE = [re.compile(r'file_system::FileSystem::save$')]
+    fns = [VIRT + '::resolve_file', VIRT + '::resolve_existing_file']
+    for fn in fns:
+        body = F.inlined(fn)
+        cx.fn(fn)
+        du = Q.DefUse(body)
+        gets = Q.find_calls(body, GET)
+        cx.require(gets, '%s no longer looks the path up with FileSystem::get' % fn)
+        for blk, t in gets:
+            ok = any(org['k'] == 'call' and re.search(r'::is_empty$', pp.callee(org['t'])) and lab == ('bool', False)
+                     for org, lab, e in Q.implied_conditions(F, body, du, blk))
+            cx.site('%s: FileSystem::get at %s behind the pathname-is-not-empty test: %s' % (last(fn), body.loc(t), ok))
+            cx.cellcount(1)
+            if not ok:
+                cx.violation(fn, 'empty-pathname-resolves', 'the simulated kernel looks an EMPTY pathname up (it resolves to the working '
+                             'directory): open(""), stat(""), chdir("") succeed where a real kernel says ENOENT - `echo y < ""` runs the '
+                             'command in the simulator and is a redirection error on a real system', loc=body.loc(t))
+    body = F.inlined(fns[0])
+    du = Q.DefUse(body)
+    saves = Q.find_calls(body, SAVE)
+    cx.require(saves, 'resolve_file no longer creates files with FileSystem::save')
+    for blk, t in saves:
+        ok = any(org['k'] == 'call' and re.search(r'::ends_with$', pp.callee(org['t'])) and lab == ('bool', False)
+                 for org, lab, e in Q.implied_conditions(F, body, du, blk))
+        cx.site('resolve_file: FileSystem::save at %s behind the no-trailing-slash test: %s' % (body.loc(t), ok))
+        cx.cellcount(1)
+        if not ok:
+            cx.violation(fns[0], 'create-with-trailing-slash', 'open(O_CREAT) of a missing pathname that ends with a slash creates a regular '
+                         'file of that name: `echo z > newfile/` succeeds and leaves `newfile` behind in the simulator; a real kernel refuses '
+                         '(EISDIR) and creates nothing', loc=body.loc(t))
